@@ -34,7 +34,7 @@ fn small_vcf() -> Vec<u8> {
     let cols: Vec<String> = ["a", "b", "c"].iter().map(|s| s.to_string()).collect();
     let rows = [["0/1", "1/1", "0/0"], ["0/0", "0|1", "0/1"], ["1/1", "0/1", "0/0"]];
     let recs: Vec<gen::Rec> = rows.iter().enumerate().map(|(i, r)| gen::Rec {
-        contig: "chr1".into(), pos: (i + 1) as u64, bad: false, nogt: false,
+        contig: "chr1".into(), pos: (i + 1) as u64, bad: false, nogt: false, short_alt: false,
         gt: cols.iter().cloned().zip(r.iter().map(|s| s.to_string())).collect(),
     }).collect();
     gen::vcf_text(&cols, &recs, false).into_bytes()
